@@ -157,7 +157,8 @@ def run_tool(exe, stubdir, workdir, header_text, cfg, layout="output_last", time
 def compile_check(lang, path, extra=(), timeout=120):
     """syntax-only acceptance of a header on its own. -> (ok, diagnostics text)"""
     if lang == "c":
-        cmd = ["gcc", "-std=c99", "-fsyntax-only", "-x", "c", path]
+        # implicit declarations are only warnings in gcc 12's C99 mode; a header that calls undeclared functions is not self-contained
+        cmd = ["gcc", "-std=c99", "-fsyntax-only", "-Werror=implicit-function-declaration", "-Werror=implicit-int", "-x", "c", path]
     else:
         cmd = ["g++", "-std=c++11", "-fsyntax-only", "-x", "c++", path]
     p = subprocess.run(cmd + list(extra), stdout=subprocess.PIPE, stderr=subprocess.STDOUT, text=True, timeout=timeout)
